@@ -266,6 +266,157 @@ def baseline_targets() -> list:
     return _bt
 
 
+# =========================================================================== lane (a2): toml groupings
+
+G_MODS = ["p.a", "p.b", "p.c"]
+G_OTHER = "p.z"  # a module no table names: must stay untouched
+
+
+def rect_partitions(cells: list[tuple[int, int]]) -> list[list[tuple[tuple[int, ...], tuple[int, ...]]]]:
+    """Every way to write the relation `cells` (module index, key index) as override tables: a table
+    names a set of modules and a set of keys and stands for their product; tables are disjoint and
+    cover the relation exactly."""
+    todo = sorted(cells)
+    if not todo:
+        return [[]]
+    m0, k0 = todo[0]
+    left = set(todo)
+    mods = sorted({m for m, _ in todo if m != m0})
+    keys = sorted({k for _, k in todo if k != k0})
+    out = []
+    for r in range(len(mods) + 1):
+        for ms in itertools.combinations(mods, r):
+            for q in range(len(keys) + 1):
+                for ks in itertools.combinations(keys, q):
+                    rect = {(m, k) for m in (m0,) + ms for k in (k0,) + ks}
+                    if rect <= left:
+                        for rest in rect_partitions(sorted(left - rect)):
+                            out.append([(tuple(sorted((m0,) + ms)), tuple(sorted((k0,) + ks)))] + rest)
+    return out
+
+
+def grouping_cases(keys: list[tuple[str, str, str]], thorough: bool) -> list[dict]:
+    """keys: [(option, ini literal, toml literal)] (3 of them).  Relations over 2x3 and 3x2 grids
+    (thorough: 3x3), every partition into tables, every table order (all permutations up to 4 tables,
+    otherwise file order and its reverse).  Simplest first."""
+    grids = [(3, 3)] if thorough else [(2, 3), (3, 2)]
+    seen: set[tuple] = set()
+    rels: list[tuple[tuple[int, int], ...]] = []
+    for nm, nk in grids:
+        cells = [(m, k) for m in range(nm) for k in range(nk)]
+        for r in range(1, len(cells) + 1):
+            for rel in itertools.combinations(cells, r):
+                if rel not in seen:
+                    seen.add(rel)
+                    rels.append(rel)
+    rels.sort(key=lambda rel: (len(rel), rel))
+    cases = []
+    for rel in rels:
+        per_mod: dict[int, list[int]] = defaultdict(list)
+        for m, k in rel:
+            per_mod[m].append(k)
+        ini = ini_text([("mypy", {})] + [(f"mypy-{G_MODS[m]}", {keys[k][0]: keys[k][1] for k in ks})
+                                         for m, ks in sorted(per_mod.items())])
+        cases.append({"rel": list(rel), "fmt": "ini", "tables": None, "files": {"mypy.ini": ini}})
+        for part in rect_partitions(list(rel)):
+            orders = list(itertools.permutations(part)) if len(part) <= (3 if thorough else 4) else [tuple(part), tuple(part[::-1])]
+            for tabs in orders:
+                lines = ["[tool.mypy]", ""]
+                for ms, ks in tabs:
+                    lines.append("[[tool.mypy.overrides]]")
+                    if len(ms) == 1:
+                        lines.append(f'module = "{G_MODS[ms[0]]}"')
+                    else:
+                        lines.append("module = [" + ", ".join(f'"{G_MODS[m]}"' for m in ms) + "]")
+                    for k in ks:
+                        lines.append(f"{keys[k][0]} = {keys[k][2]}")
+                    lines.append("")
+                cases.append({"rel": list(rel), "fmt": "toml", "tables": [[list(ms), list(ks)] for ms, ks in tabs],
+                              "files": {"pyproject.toml": "\n".join(lines)}})
+    return cases
+
+
+def run_grouping_batch(item: dict) -> list[dict]:
+    out = []
+    for c in item["cases"]:
+        r = evaluate({"args": ["t.py"], "files": c["files"], "modules": G_MODS + [G_OTHER], "module_fields": item["fields"]})
+        if r["status"] != "ok":
+            out.append({"status": "rejected", "complaint": r.get("complaint", "")[:200]})
+        else:
+            out.append({"status": "ok", "M": r["M"]})
+    return out
+
+
+def lane_a2(table: dict, info_a: dict, ctx: Ctx, herr: list[str], only_rel: list | None = None) -> tuple[list[Violation], dict]:
+    src = info_a["sources_of"]
+    pm = [n for n in sorted(table) if table[n]["per_module"] and "ini-module" in src.get(n, ()) and "toml-module" in src.get(n, ())]
+    bools = [n for n in pm if table[n]["kind"] == "bool"]
+    lists = [n for n in pm if table[n]["kind"] == "list" and "error_code" not in n]
+    if len(bools) < 2 or not lists:
+        raise RuntimeError("lane (a2): need two per-module bools and one per-module list option")
+    keys = []
+    for n in bools[:2]:
+        v = not table[n]["default"]
+        keys.append((n, str(v), "true" if v else "false"))
+    keys.append((lists[0], "G1", '["G1"]'))
+    cases = grouping_cases(keys, ctx.thorough)
+    if only_rel is not None:
+        cases = [c for c in cases if J(c["rel"]) == J(only_rel)]
+    fields = [k[0] for k in keys]
+    size = 100
+    items = [{"cases": b, "fields": fields} for b in chunked(cases, size)]
+    order = seeded_order(list(range(len(items))), ctx.seed)
+    res: list[Any] = [None] * len(cases)
+    for k, _it, st, val in pmap(run_grouping_batch, [items[i] for i in order], fresh=False, timeout=1800):
+        if st != "ok":
+            herr.append(f"a2 batch {order[k]} failed: {str(val)[:300]}")
+            continue
+        for j, r in enumerate(val):
+            res[order[k] * size + j] = r
+    if any(r is None for r in res):
+        raise RuntimeError("lane a2 incomplete: " + "; ".join(herr[:3]))
+    viols: list[Violation] = []
+    stats: Counter[str] = Counter()
+    ref: dict[str, dict] = {}
+    for c, r in zip(cases, res):
+        if c["fmt"] == "ini":
+            ref[J(c["rel"])] = r
+    samples = []
+    for c, r in zip(cases, res):
+        if c["fmt"] != "toml":
+            stats["relations"] += 1
+            continue
+        stats["toml_groupings"] += 1
+        tabs = c["tables"]
+        listed = any(len(ms) > 1 for ms, _ in tabs)
+        repeated = len({m for ms, _ in tabs for m in ms}) < sum(len(ms) for ms, _ in tabs)
+        stats["with_list_valued_module_key"] += listed
+        stats["with_a_module_named_in_several_tables"] += repeated
+        stats["with_both"] += listed and repeated
+        if len(samples) < 1 and listed and repeated:
+            samples.append({"relation (module, option)": [[G_MODS[m], keys[k][0]] for m, k in c["rel"]],
+                            "tables": [[[G_MODS[m] for m in ms], [keys[k][0] for k in ks]] for ms, ks in tabs]})
+        rr = ref[J(c["rel"])]
+        if rr["status"] != "ok":
+            stats["reference_rejected"] += 1
+            continue
+        shape = f"list-valued-module={'yes' if listed else 'no'}|module-in-several-tables={'yes' if repeated else 'no'}"
+        desc = [[[G_MODS[m] for m in ms], [keys[k][0] for k in ks]] for ms, ks in tabs]
+        if r["status"] != "ok":
+            viols.append(Violation(f"toml-grouping|rejected|{shape}",
+                                   f"override tables {desc} are rejected ({r['complaint']}) although the same settings as mypy.ini sections are accepted",
+                                   {"lane": "a2", "rel": c["rel"], "tables": tabs, "files": c["files"]}))
+            continue
+        bad = {m: {f: (r["M"][m][f], rr["M"][m][f]) for f in fields if r["M"][m][f] != rr["M"][m][f]}
+               for m in G_MODS + [G_OTHER] if r["M"][m] != rr["M"][m]}
+        if bad:
+            viols.append(Violation(f"toml-grouping|differs-from-ini-sections|{shape}",
+                                   f"override tables {desc}: (toml, ini) values differ for {bad}",
+                                   {"lane": "a2", "rel": c["rel"], "tables": tabs, "files": c["files"]}))
+    return viols, {"stats": dict(stats), "cases": len(cases), "options": fields, "modules": G_MODS + [G_OTHER],
+                   "grids": "3x3" if ctx.thorough else "2x3 and 3x2", "samples": samples}
+
+
 # =========================================================================== lane (b): precedence pairs
 
 # instance id -> (documented level, section pattern)
@@ -434,18 +585,37 @@ def pattern_configs(patterns: list[str], max_sections: int, lane: str, fmt: str)
         for secs in itertools.permutations(patterns, k):
             if lane == "c1":
                 assigns: list[tuple] = list(itertools.product((True, False), repeat=k))
-            else:
+            elif lane == "c2":
                 assigns = list(itertools.product(("X", "Y", "XY"), repeat=k))
+            else:  # c3: each section sets ONE of the incremental options D/E, the bool I, or none of them (N)
+                assigns = list(itertools.product(("D", "E", "I", "N"), repeat=k))
             for asg in assigns:
                 cfgs.append({"lane": lane, "fmt": fmt, "sections": list(secs), "assign": list(asg)})
     return cfgs
 
 
+def c3_bool(i: int) -> bool:
+    """Value section number i gives to the bool option of lane c3 (alternating, so neighbours conflict)."""
+    return i % 2 == 0
+
+
 def _pattern_files(cfg: dict, names: dict) -> dict[str, str]:
     secs = []
     for i, (p, a) in enumerate(zip(cfg["sections"], cfg["assign"])):
+        toml = cfg["fmt"] == "toml"
         if cfg["lane"] == "c1":
-            kv = {names["B"]: ("true" if a else "false") if cfg["fmt"] == "toml" else str(a)}
+            kv = {names["B"]: ("true" if a else "false") if toml else str(a)}
+        elif cfg["lane"] == "c3":
+            if a == "D":
+                kv = {names["D"]: f'["{names["Dcodes"][i]}"]' if toml else names["Dcodes"][i]}
+            elif a == "E":
+                kv = {names["E"]: f'["{names["Ecodes"][i]}"]' if toml else names["Ecodes"][i]}
+            elif a == "I":
+                v = c3_bool(i)
+                kv = {names["I"]: ("true" if v else "false") if toml else str(v)}
+            else:  # a section that says nothing about D/E/I (it sets an unrelated option)
+                v = not names["Bdefault"]
+                kv = {names["B"]: ("true" if v else "false") if toml else str(v)}
         else:
             kv = {}
             for letter in a:
@@ -465,8 +635,11 @@ def run_pattern_batch(item: dict) -> Any:
     names, mods = item["names"], item["modules"]
     out: list[Any] = []
     for cfg in item["cfgs"]:
-        r = evaluate({"args": ["t.py"], "files": _pattern_files(cfg, names), "modules": mods,
-                      "module_fields": sorted(set(names.values()))})
+        if cfg["lane"] == "c3":
+            fields = [names["Dset"], names["Eset"], names["I"]]
+        else:
+            fields = sorted({names["B"], names["X"], names["Y"]})
+        r = evaluate({"args": ["t.py"], "files": _pattern_files(cfg, names), "modules": mods, "module_fields": fields})
         if r["status"] != "ok":
             out.append({"rejected": r.get("complaint", "")})
             continue
@@ -475,6 +648,8 @@ def run_pattern_batch(item: dict) -> Any:
             s = r["M"][m]
             if cfg["lane"] == "c1":
                 row.append(s[names["B"]])
+            elif cfg["lane"] == "c3":
+                row.append([s[names["Dset"]], s[names["Eset"]], s[names["I"]]])
             else:
                 row.append([s[names["X"]], s[names["Y"]]])
         out.append(row)
@@ -482,7 +657,7 @@ def run_pattern_batch(item: dict) -> Any:
     if j is None:
         return out
     obs_match = {(p, m): v for p, m, v in j["obs_match"]}
-    viols, stats, samples = judge_patterns(item["cfgs"], out, mods, j["defaults"], obs_match)
+    viols, stats, samples = judge_patterns(item["cfgs"], out, mods, j["defaults"], obs_match, names)
     keep: dict[str, list] = defaultdict(list)
     counts: Counter[str] = Counter()
     for v in viols:
@@ -498,8 +673,55 @@ def _shape(pattern: str) -> str:
     return ".".join(c if c == "*" else next(it) for c in pattern.split("."))
 
 
+def judge_incremental(cfg: dict, row: list, mods: list[str], defaults: dict, obs_match: dict, names: dict,
+                      viols: list[Violation], stats: Counter) -> None:
+    """Lane c3.  Documented rule, per OPTION: among the applying sections that SET the option the
+    documented winner decides; an applying section that does not mention the option leaves it alone
+    (it is inherited).  The error-code lists are incremental in mypy (several sections may each add
+    codes), so for them only this much is demanded: the winner's code is in force, and the code of a
+    section that does not apply to the module is not."""
+
+    def applies(p: str, mm: str) -> bool:
+        return obs_match.get((p, mm), model.doc_matches(p, mm))
+
+    secs, asg = cfg["sections"], cfg["assign"]
+    for mi, m in enumerate(mods):
+        disabled, enabled, ival = row[mi]
+        live = [i for i, p in enumerate(secs) if applies(p, m)]
+        for tr, codes, have in (("D", names["Dcodes"], disabled), ("E", names["Ecodes"], enabled), ("I", None, ival)):
+            setters = [{"level": model.section_level(secs[i]), "pattern": secs[i], "pos": i, "id": i}
+                       for i in range(len(secs)) if asg[i] == tr]
+            if not setters:
+                continue
+            stats["evaluations"] += 1
+            stats["c3_evaluations"] += 1
+            w = model.doc_winner(setters, m, matches=applies)
+            if w is not None and live and live[-1] != w and len(live) >= 2:
+                stats["c3_winner_followed_by_an_applying_section_silent_about_the_option"] += 1
+            bad = None
+            if tr == "I":
+                exp = defaults["I"] if w is None else c3_bool(w)
+                if have != exp:
+                    bad = f"{names['I']} expected {exp!r}, got {have!r}"
+            else:
+                if w is not None and codes[w] not in have:
+                    bad = f"code {codes[w]!r} set by the documented winner [mypy-{secs[w]}] is not in force ({have})"
+                leak = [codes[s0["id"]] for s0 in setters if not applies(s0["pattern"], m) and codes[s0["id"]] in have]
+                if bad is None and leak:
+                    bad = f"code {leak[0]!r} of a section that does not apply to {m} is in force"
+            if bad:
+                lv = sorted({model.LEVEL_NAMES[model.section_level(secs[i])] for i in live})
+                opt = names[tr]
+                wl = model.LEVEL_NAMES[settings_level(setters, w)] if w is not None else "none"
+                viols.append(Violation(
+                    f"pattern-inherit|opt={opt}|applying={'+'.join(lv)}|setter={wl}",
+                    f"sections {secs} set {asg} ({cfg['fmt']}; D={names['D']}, E={names['E']}, I={names['I']}, N=other option), "
+                    f"module {m}: {bad}",
+                    {"lane": "c", "cfg": cfg, "module": m, "track": tr}))
+
+
 def judge_patterns(cfgs: list[dict], rows: list[Any], mods: list[str], defaults: dict,
-                   obs_match: dict[tuple[str, str], bool]) -> tuple[list[Violation], Counter, list]:
+                   obs_match: dict[tuple[str, str], bool], names: dict | None = None) -> tuple[list[Violation], Counter, list]:
     viols: list[Violation] = []
     stats: Counter[str] = Counter()
     samples: list = []
@@ -508,6 +730,10 @@ def judge_patterns(cfgs: list[dict], rows: list[Any], mods: list[str], defaults:
             stats["configs_rejected"] += 1
             continue
         lane = cfg["lane"]
+        if lane == "c3":
+            assert names is not None
+            judge_incremental(cfg, row, mods, defaults, obs_match, names, viols, stats)
+            continue
         tracks = ["B"] if lane == "c1" else ["X", "Y"]
         for mi, m in enumerate(mods):
             for ti, tr in enumerate(tracks):
@@ -593,6 +819,64 @@ WITNESSES: list[dict[str, Any]] = [
 WITNESS_PAIRS = ["disallow_untyped_defs", "strict_optional", "ignore_errors", "always_true"]
 
 
+# Layout witnesses: the SAME non-conflicting per-module settings written in different layouts (pattern
+# kinds, section order, file format) must give the same diagnostics for module a.x.b.
+_LAYOUT_PROG = {"a/__init__.py": "", "a/x/__init__.py": "", "a/x/b.py": "# witness\ndef f(x): return x\nundefined_name\nimport nosuchmod\n"}
+
+
+def layout_jobs(real_cli: bool) -> list[dict]:
+    jobs = []
+    for fam, (k1, ini1, toml1) in {
+        "disable_error_code": ("disable_error_code", "name-defined", '["name-defined"]'),
+        "enable_error_code": ("enable_error_code", "ignore-without-code", '["ignore-without-code"]'),
+    }.items():
+        k2, ini2, toml2 = "disallow_untyped_defs", "True", "true"
+        prog = dict(_LAYOUT_PROG)
+        if fam == "enable_error_code":
+            prog["a/x/b.py"] = "# witness\ndef f(x): return x\ny: int = ''  # type: ignore\n"
+        layouts: dict[str, dict[str, str]] = {}
+        for label, p1, p2 in (("unstructured", "*.b", "a.*.b"), ("unstructured-reordered", "a.*.b", "*.b"),
+                              ("structured", "a.*", "a.x.*"), ("structured-reordered", "a.x.*", "a.*"),
+                              ("unstructured+concrete", "*.b", "a.x.b"), ("structured+unstructured", "a.*", "*.b")):
+            # the first pattern carries the error-code list, the second the unrelated bool ...
+            layouts[f"ini/{label}"] = {"mypy.ini": ini_text([("mypy", {}), (f"mypy-{p1}", {k1: ini1}), (f"mypy-{p2}", {k2: ini2})])}
+            layouts[f"toml/{label}"] = {"pyproject.toml": toml_text(None, [(p1, {k1: toml1}), (p2, {k2: toml2})])}
+            # ... and the other way round
+            layouts[f"ini/{label}/swapped"] = {"mypy.ini": ini_text([("mypy", {}), (f"mypy-{p1}", {k2: ini2}), (f"mypy-{p2}", {k1: ini1})])}
+        layouts["ini/one-concrete-section"] = {"mypy.ini": ini_text([("mypy", {}), ("mypy-a.x.b", {k1: ini1, k2: ini2})])}
+        for label, files in layouts.items():
+            tree = dict(prog)
+            tree.update(files)
+            jobs.append({"kind": "layout", "family": fam, "layout": label, "tree": tree, "real_cli": real_cli,
+                         "args": ["--no-incremental", "--ignore-missing-imports", "a/x/b.py"]})
+    return jobs
+
+
+def judge_layouts(jobs: list[dict], results: list[dict], herr: list[str]) -> tuple[list[Violation], dict]:
+    viols: list[Violation] = []
+    stats: Counter[str] = Counter()
+    fams: dict[str, list[int]] = defaultdict(list)
+    for i, (j, r) in enumerate(zip(jobs, results)):
+        if "error" in r:
+            herr.append(f"layout witness {j['family']} {j['layout']}: {r['error']}")
+            continue
+        fams[j["family"]].append(i)
+    for fam, idxs in sorted(fams.items()):
+        stats["layout_runs"] += len(idxs)
+        ref = next((i for i in idxs if jobs[i]["layout"] == "ini/one-concrete-section"), idxs[0])
+        if not any(":" in ln and "error" in ln for ln in results[ref]["lines"]):
+            herr.append(f"layout witness {fam}: reference run shows no diagnostic: {results[ref]['lines'][:2]}")
+        for i in idxs:
+            stats["layout_comparisons"] += i != ref
+            if not same_diagnostics(results[i]["lines"], results[ref]["lines"])[0]:
+                kind = jobs[i]["layout"].split("/", 1)[1]
+                viols.append(Violation(f"layout|{fam}|{kind}",
+                                       f"end-to-end: {fam} + disallow_untyped_defs written as {jobs[i]['layout']} gives "
+                                       f"{results[i]['lines'][:3]}, as one concrete section {results[ref]['lines'][:3]}",
+                                       {"lane": "d", "opt": "<layout>", "job": jobs[i]}))
+    return viols, dict(stats)
+
+
 def _witness_run(job: dict) -> dict:
     """One real mypy.main.main run (fresh process) in a private directory."""
     from mc.drivers import cli_inproc
@@ -601,6 +885,7 @@ def _witness_run(job: dict) -> dict:
     shutil.rmtree(d, ignore_errors=True)
     os.makedirs(os.path.join(d, ".git"))
     for rel, text in job["tree"].items():
+        os.makedirs(os.path.dirname(os.path.join(d, rel)), exist_ok=True)
         with open(os.path.join(d, rel), "w") as f:
             f.write(text)
     for k in ("MYPY_CACHE_DIR", "MYPY_NUM_WORKERS", "MYPYPATH", "MYPY_CONFIG_FILE_DIR"):
@@ -616,7 +901,10 @@ def _witness_run(job: dict) -> dict:
         if job.get("real_cli"):
             from mc.drivers import cli_subprocess
 
-            r = cli_subprocess(job["args"], d, env={"HOME": d})
+            import mypy
+
+            top = os.path.dirname(os.path.dirname(os.path.abspath(mypy.__file__)))  # the tree under test
+            r = cli_subprocess(job["args"], d, env={"HOME": d, "PYTHONPATH": top})
         else:
             r = cli_inproc(job["args"], d, fixtures=True)
     finally:
@@ -863,7 +1151,9 @@ def lane_b(table: dict, carry: dict, herr: list[str], names: list[str] | None = 
     return v, info, len(cases)
 
 
-def lane_c(table: dict, info_a: dict, ctx: Ctx, herr: list[str], only: list[dict] | None = None) -> tuple[list[Violation], dict]:
+def lane_c(table: dict, info_a: dict, ctx: Ctx, herr: list[str], only: list[dict] | None = None,
+           effects: dict | None = None) -> tuple[list[Violation], dict]:
+    effects = effects or {}
     # tracked options, chosen from the introspected table: first per-module bool, first two per-module
     # list options whose whole effect is the list itself (plain replacement semantics)
     src = info_a["sources_of"]
@@ -872,12 +1162,33 @@ def lane_c(table: dict, info_a: dict, ctx: Ctx, herr: list[str], only: list[dict
     lists = [n for n in pm if table[n]["kind"] == "list" and "error_code" not in n]
     if not bools or len(lists) < 2:
         raise RuntimeError("lane (c): no per-module bool / two per-module list options in the introspected table")
-    names = {"B": bools[0], "X": lists[0], "Y": lists[1]}
+    names: dict[str, Any] = {"B": bools[0], "X": lists[0], "Y": lists[1]}
+    # lane c3: the per-module list options whose effect is INCREMENTAL (their lane-(a) footprint has a
+    # derived set next to the list itself), with distinct valid codes per section asked from mypy, and
+    # the one bool for which apply_changes keeps a sticky side flag
+    from mypy.errorcodes import error_codes
+
+    inc = []
+    for n in pm:
+        if table[n]["kind"] == "list":
+            fp = sorted(set(effects.get((n, 0), {})) - {n})
+            if len(fp) == 1:
+                inc.append((n, fp[0]))
+    dis = next(((n, f) for n, f in inc if n.startswith("disable")), None)
+    ena = next(((n, f) for n, f in inc if n.startswith("enable")), None)
+    have_c3 = dis is not None and ena is not None and "ignore_missing_imports" in pm
+    if have_c3:
+        assert dis and ena
+        on = sorted(c for c in error_codes if error_codes[c].default_enabled and error_codes[c].sub_code_of is None)
+        off = sorted(c for c in error_codes if not error_codes[c].default_enabled and error_codes[c].sub_code_of is None)
+        names.update(D=dis[0], Dset=dis[1], E=ena[0], Eset=ena[1], I="ignore_missing_imports",
+                     Dcodes=on[:4], Ecodes=off[:4])
     depth = 3 if ctx.quick else 4
     maxsec = 3 if ctx.quick else 4
     mods = modules_upto(depth)
     base = run_isolated(baseline, MOD)["M"]
-    defaults = {k: base[v] for k, v in names.items()}
+    defaults = {k: base[names[k]] for k in ("B", "X", "Y", "I") if k in names}
+    names["Bdefault"] = defaults["B"]
     # which patterns does mypy accept?  (ask it: single-section configs)
     single = [{"lane": "c1", "fmt": "ini", "sections": [p], "assign": [not defaults["B"]]} for p in PATTERNS]
     rows = run_isolated(run_pattern_batch, {"cfgs": single, "names": names, "modules": mods})
@@ -892,6 +1203,8 @@ def lane_c(table: dict, info_a: dict, ctx: Ctx, herr: list[str], only: list[dict
             cfgs += pattern_configs(accepted, maxsec, "c1", fmt)
             if fmt == "ini" or ctx.thorough:
                 cfgs += pattern_configs(accepted, min(maxsec, 3), "c2", fmt)
+                if have_c3:
+                    cfgs += pattern_configs(accepted, min(maxsec, 3), "c3", fmt)
     size = 60
     judge = {"defaults": defaults, "obs_match": [[p, m, v] for (p, m), v in obs_match.items()]}
     items = [{"cfgs": b, "names": names, "modules": mods, "judge": judge} for b in chunked(cfgs, size)]
@@ -933,7 +1246,11 @@ def lane_c(table: dict, info_a: dict, ctx: Ctx, herr: list[str], only: list[dict
         if k.startswith("doc_matching_would_change_result|shape="):
             sh = k.split("shape=", 1)[1]
             by_shape.setdefault(sh, {})["evaluations_where_literal_doc_matching_would_change_the_result"] = stats.pop(k)
-    return v, {"stats": dict(stats), "tracked_options": names, "patterns_accepted": accepted,
+    return v, {"stats": dict(stats), "tracked_options": {k: v0 for k, v0 in names.items() if k != "Bdefault"},
+               "lanes": "c1 bool x all value assignments; c2 two id-valued options, each section sets X, Y or both; "
+                        "c3 each section sets one of disable_error_code / enable_error_code (distinct code per section) / "
+                        "ignore_missing_imports / an unrelated option (inheritance through silent sections)",
+               "patterns_accepted": accepted,
                "patterns_rejected_by_mypy": [p for p in PATTERNS if p not in accepted],
                "modules": len(mods), "module_depth": depth, "max_sections": maxsec, "configs": len(cfgs),
                "matching_relation": "mypy's own, observed from one-section configs (which modules a pattern matches is "
@@ -966,6 +1283,11 @@ def lane_d(table: dict, ctx: Ctx, herr: list[str], only: list[str] | None = None
             pres = _pmap_batches(run_witness_batch, pj, 8, herr, "d-pairs") if pj else []
             v2, info2, _ = judge_witness(table, jobs + pj, res + pres, [])
             viols += v2
+            lj = layout_jobs(real)
+            lres = _pmap_batches(run_witness_batch, lj, 4, herr, "d-layouts")
+            v3, linfo = judge_layouts(lj, lres, herr)
+            viols += v3
+            info2["stats"].update(linfo)
             info2["stats"]["witness_sources_rejected_by_mypy"] = n_rej
             infos["real_cli" if real else "inproc_fixture_stubs"] = info2
         return viols, infos
@@ -984,13 +1306,15 @@ def run(ctx: Ctx) -> Result:
     herr: list[str] = []
     va, ia, carry, na = lane_a(table, herr)
     log(f"C17 (a): {na} cases, {len(va)} violations")
+    va2, ia2 = lane_a2(table, ia, ctx, herr)
+    log(f"C17 (a2): {ia2['cases']} cases, {len(va2)} violations")
     vb, ib, nb = lane_b(table, carry, herr)
     log(f"C17 (b): {nb} cases, {len(vb)} violations")
-    vc, ic = lane_c(table, ia, ctx, herr)
+    vc, ic = lane_c(table, ia, ctx, herr, effects=carry["effects"])
     log(f"C17 (c): {ic['configs']} configs, {ic['stats'].get('evaluations')} evaluations, {len(vc)} violations")
     vd, id_ = lane_d(table, ctx, herr)
     log(f"C17 (d): {len(vd)} violations")
-    violations = va + vb + vc + vd
+    violations = va + va2 + vb + vc + vd
 
     # ---- vacuity gates
     vac = []
@@ -1014,12 +1338,18 @@ def run(ctx: Ctx) -> Result:
     if vac:
         raise RuntimeError("vacuous exploration: " + "; ".join(vac))
 
-    evaluations = na + nb + ic["stats"].get("evaluations", 0) + sum(i["stats"].get("witness_runs", 0) + i["stats"].get("witness_pairs", 0) for i in id_.values())
+    if not ia2["stats"].get("with_both"):
+        vac.append("lane (a2): no grouping with a list-valued module key and a module named in several tables")
+    if not ic["stats"].get("c3_winner_followed_by_an_applying_section_silent_about_the_option"):
+        vac.append("lane (c3): no case where an applying later section is silent about the option")
+    if vac:
+        raise RuntimeError("vacuous exploration: " + "; ".join(vac))
+    evaluations = na + ia2["cases"] + nb + ic["stats"].get("evaluations", 0) + sum(i["stats"].get("witness_runs", 0) + i["stats"].get("witness_pairs", 0) for i in id_.values())
     nontriv = len(ia["nontrivial"]) + ib["stats"].get("pairs_judged", 0) + ic["stats"].get("module_matched_by_2_or_more_sections", 0)
     single_source = sorted(n for n in table if len(ia["sources_of"].get(n, ())) < 2)
     samples = [
         {"lane": "a", "option": "strict_optional", "sources_accepted": sorted(ia["sources_of"].get("strict_optional", ()))},
-    ] + [dict(s, lane="c") for s in ic["samples"][:2]] + [dict(s, lane="d") for i in id_.values() for s in i["samples"][:1]]
+    ] + [dict(s, lane="a2") for s in ia2["samples"]] + [dict(s, lane="c") for s in ic["samples"][:2]] + [dict(s, lane="d") for i in id_.values() for s in i["samples"][:1]]
     cov = {
         "evaluations": evaluations,
         "distinct_nontrivial": nontriv,
@@ -1041,6 +1371,7 @@ def run(ctx: Ctx) -> Result:
                        "never read after option processing (asked from the source tree)": sorted(_DEAD)},
                    "inline_silently_accepts_non_per_module_options": ia["inline_silently_accepts_non_per_module_options"],
                    "module_source_changed_global_options": ia["module_source_changed_global_options"]},
+        "lane_a2_toml_groupings": {k: v for k, v in ia2.items() if k != "samples"},
         "lane_b": {"cases": nb, **ib["stats"], "skipped": ib["skipped"], "pair_kinds": ib["pair_kinds"],
                    "instances": [i[0] for i in INSTANCES], "formats": ["ini", "toml"]},
         "lane_c": {k: v for k, v in ic.items() if k != "samples"},
@@ -1076,9 +1407,12 @@ def replay(ctx: Ctx, rec: dict) -> Result:
         viols = va
         if d["lane"] == "b":
             viols, _, _ = lane_b(table, carry, herr, [d["opt"]])
-    elif d["lane"] == "c":
+    elif d["lane"] == "a2":
         _, ia, _, _ = lane_a(table, herr, None)
-        viols, _ = lane_c(table, ia, ctx, herr, only=[d["cfg"]])
+        viols, _ = lane_a2(table, ia, ctx, herr, only_rel=d["rel"])
+    elif d["lane"] == "c":
+        _, ia, carry, _ = lane_a(table, herr, None)
+        viols, _ = lane_c(table, ia, ctx, herr, only=[d["cfg"]], effects=carry["effects"])
     elif d["lane"] == "d":
         viols, _ = lane_d(table, ctx, herr, only=[d["opt"]])
     key = rec["signature"].split("|opt=")[0]
